@@ -112,6 +112,7 @@ fn more_rotation(g: &mut Gen) {
     if !g.cfg.guards.contains("no_rotation") {
         g.cfg.weights.rotate = 3;
     }
+    g.oversize_data = true;
 }
 
 pub fn spec() -> CheckSpec {
